@@ -232,7 +232,9 @@ def display(I, v, spec=None):
     if isinstance(d, (RString, tuple)): return list(I.str_of(d))
     if isinstance(d, bool): return list(lit('true' if d else 'false'))
     if isinstance(d, int): return [ord(c) for c in str(d)]
-    if isinstance(d, float): return [ord(c) for c in fmt_float(d)]
+    if isinstance(d, float):
+        if type(d).__name__ == 'SignFloat': raise Unsupported('formatting a symbolic integer converted to a float')
+        return [ord(c) for c in fmt_float(d)]
     if is_sym(d):
         if z3.is_bool(d):
             return list(lit('true' if I.branch(d) else 'false'))
@@ -1101,6 +1103,9 @@ def install(prog):
             prog.models.setdefault('<impl %s>::wrapping_%s' % (_ty, _op), _wrapping(_op))
     @M('<impl f64>::powf')
     def _(I, a, c):
+        from engine import SignFloat
+        if isinstance(I.deref(a[0]), SignFloat) or isinstance(I.deref(a[1]), SignFloat):
+            raise Unsupported('powf of a symbolic integer converted to a float')
         x = float(I.deref(a[0])); y = float(I.deref(a[1]))
         try: return float(x) ** y if not (x < 0 and y != int(y)) else float('nan')
         except OverflowError: return float('inf')
